@@ -7,7 +7,7 @@
    run loop.  Go's channel (capacity 1 = one-slot option) and sync.Mutex (atomic sections)
    semantics are assumed by the model. *)
 From Eino Require Import Base.Util Model.TaskMgr Model.Confluence.
-From Eino Require Import Proofs.TaskMgr Proofs.TaskMgrProgress Proofs.TaskMgrTrace Proofs.Confluence Proofs.Eager Proofs.HandoffOrder.
+From Eino Require Import Proofs.TaskMgr Proofs.TaskMgrProgress Proofs.TaskMgrTrace Proofs.Confluence Proofs.Eager Proofs.HandoffOrder Proofs.TaskMgrComplete.
 From Coq Require Import Permutation.
 
 (* ---- every finished task is in exactly one of l / done / the collector's hands / collected;
@@ -66,6 +66,13 @@ Print Assumptions tm_panic_is_error.
 Theorem tm_accepts_sound : forall tr, accepts tr = true -> exists s, reach s /\ Inv s /\ settled s = true.
 Proof. exact accepts_sound. Qed.
 Print Assumptions tm_accepts_sound.
+
+(* ... and it is not stricter than the LTS: every transition from a reachable state is one event the
+   checker accepts, with the same successor (so a conforming implementation whose log is in
+   transition order is never rejected) *)
+Theorem tm_checker_complete : forall s s', reach s -> step s s' -> exists e, exec_ev s e = Some s'.
+Proof. intros s s' R. exact (exec_ev_complete s s' (inv_reach s R)). Qed.
+Print Assumptions tm_checker_complete.
 
 (* ---- order side: calculateNextTasks on a permuted completed list (distinct nodes) gives the same
         next tasks with the same inputs, the same END value, and a lookup-equivalent channel state ---- *)
@@ -135,6 +142,14 @@ Theorem eager_ok_complete : forall g pick f fuel v l r,
   exists l' r', eager pick_ok g fuel = (ODone v, l', r') /\ Permutation (feeding g l) (feeding g l').
 Proof. exact eager_ok_complete. Qed.
 Print Assumptions eager_ok_complete.
+
+(* whatever the schedule and the outcome, an eager run starts no node twice, and only nodes of the graph *)
+Theorem eager_starts_each_node_once : forall g pick f out log left,
+  NoDup (map n_id g) -> ~ In START (map n_id g) ->
+  eager pick g f = (out, log, left) ->
+  NoDup (map fst log) /\ (forall y i, In (y, i) log -> y <> END /\ In y (map n_id g)).
+Proof. exact eager_starts_each_node_once. Qed.
+Print Assumptions eager_starts_each_node_once.
 
 (* an eager run does not return a value before the nodes feeding END have finished: none of them
    is among the nodes still running at the return *)
